@@ -349,7 +349,7 @@ def tour_shapes(tier):
         out.append(dict(acts=list(a)))
         if 'M' not in a: out.append(dict(acts=list(a), dummy=True))
     out.append(dict(acts=['S'], sd='overflow', ed='real')); out.append(dict(acts=['S'], sd='real', ed='overflow'))
-    if tier == 'quick': out.append(dict(acts=['M', 'S'])); out.append(dict(acts=['S', 'S', 'S'], remove_only=True))
+    if tier == 'quick': out.append(dict(acts=['M', 'S'])); out.append(dict(acts=['S', 'S', 'S'], remove_only=True)); out.append(dict(acts=['S', 'S', 'S'], dummy=True, remove_only=True))
     if tier == 'thorough':
         out.append(dict(acts=['S', 'S'], sd='overflow', ed='overflow')); out.append(dict(acts=['S', 'M'], sd='overflow', ed='real'))
     return out
